@@ -124,6 +124,12 @@ class B:
     self.m.signatureDefs.append(s)
 
   def build(self):
+    if getattr(self, 'empty_quant', False):
+      # converter style: an EMPTY QuantizationParameters table on every tensor instead of none
+      for sg in self.m.subgraphs:
+        for t in sg.tensors:
+          if t.quantization is None:
+            t.quantization = S.QuantizationParametersT()
     return bytes(flatbuffer_utils.convert_object_to_bytearray(self.m))
 
 
@@ -167,6 +173,9 @@ class G:
     r = self.rng
     kind = r.random()
     a = r.normal(size=shape) * scale
+    if getattr(self, 'huge_w_p', 0.0) and r.random() < self.huge_w_p:
+      # beyond the float16 range (65504): a float16 cast must give +-inf there, an integer quantizer a very coarse step
+      return (np.asarray(a) * float(r.choice([7e4, 1e5, 3e6]))).astype(np.float32)
     if kind < 0.06:
       a = np.abs(a) + 0.01            # one-signed
     elif kind < 0.10:
@@ -676,6 +685,8 @@ class ModelSpec:
 
 
 def _spec(b, graphs, label=''):
+  if not hasattr(b, 'empty_quant') and graphs:
+    b.empty_quant = bool(graphs[0].rng.random() < 0.5)
   sigs = []
   classes = set()
   for s, g in zip(b.m.signatureDefs, graphs):
@@ -705,9 +716,10 @@ def rand_model(rng, n_sub=1, n_ops=None, sep='_', **kw):
 
 # ---------------------------------------------------------------- directed templates
 
-def _single(rng, fn, label, sep='_'):
+def _single(rng, fn, label, sep='_', huge_w_p=0.0):
   b = B()
   g = G(b, 'main', 'm/', rng, sep=sep)
+  g.huge_w_p = huge_w_p
   outs = fn(g, rng)
   g.finish(outs, 'serving_default')
   sp = _spec(b, [g], label)
@@ -765,6 +777,17 @@ def t_stateful_two_signatures(rng):
     g.finish([y], f'sig{i}')
     graphs.append(g)
   return _spec(b, graphs, 'stateful_two_signatures')
+
+
+def t_huge_activation(rng):
+  """Runtime tensors of 2^21 elements (a [1, 1024, 2048] hidden state): anything that samples, chunks or indexes large tensors."""
+  def f(g, rng):
+    x = g.inp((1, 1024, 2048))
+    y = g.mul(x, g.const('half', np.asarray(0.5, dtype=np.float32).reshape(())))
+    z = g.add(y, g.const('shift', g.w((2048,), 0.1)))
+    g.classes.add('huge_activation')
+    return [z]
+  return _single(rng, f, 'huge_activation')
 
 
 def t_producer_zero_float_out(rng):
@@ -987,7 +1010,7 @@ SINGLE_OPS = {
 }
 
 
-def single_op_model(rng, variant, odd=False, wide=False):
+def single_op_model(rng, variant, odd=False, wide=False, huge_w_p=0.0):
   """One operator of the coverage table (plus what it needs to be well-formed).  wide: feature / channel dimensions of realistic
   size (x16 and off by one) for the variants whose shapes allow it."""
   o0 = (lambda a, b: int(rng.choice([a, b]))) if odd else (lambda a, b: a)
@@ -1077,7 +1100,7 @@ def single_op_model(rng, variant, odd=False, wide=False):
     if v == 'split':
       return g.split(g.inp((2, 6)), 1, 2)
     raise ValueError(v)
-  sp = _single(rng, f, 'single:' + variant)
+  sp = _single(rng, f, 'single:' + variant, huge_w_p=huge_w_p)
   if variant == 'rsqrt':
     sp.signatures[0]['positive_inputs'] = True
   return sp
@@ -1323,3 +1346,32 @@ def noise_injected(content, steps, weight_bits, rng, gamma=1.0, si=0):
       inject(int(o))
   sg.operators = new_ops
   return bytes(flatbuffer_utils.convert_object_to_bytearray(m))
+
+
+def externalize(content):
+  """The same model in EXTERNAL-BUFFER form, as float models beyond 2 GB arrive: every non-empty constant is moved behind the
+  flatbuffer (16-byte aligned) and its Buffer entry carries (offset, size) instead of data.  Own two-pass packer, independent of the
+  library's writer."""
+  m = read(content)
+  blobs = []
+  for b in m.buffers:
+    if b.data is not None and len(b.data) > 0:
+      raw = bytes(np.asarray(b.data, dtype=np.uint8).tobytes())
+      blobs.append((b, raw))
+      b.data = None
+      b.offset = 1 << 40          # placeholder: scalar fields have a fixed width, the table layout does not depend on the value
+      b.size = len(raw)
+  if not blobs:
+    return content
+  size1 = len(flatbuffer_utils.convert_object_to_bytearray(m))
+  pos = size1 + (-size1) % 16
+  for b, raw in blobs:
+    b.offset = pos
+    pos += len(raw) + (-len(raw)) % 16
+  fb = bytes(flatbuffer_utils.convert_object_to_bytearray(m))
+  assert len(fb) == size1
+  out = bytearray(fb)
+  for b, raw in blobs:
+    out += b'\0' * (b.offset - len(out))
+    out += raw
+  return bytes(out)
